@@ -61,6 +61,9 @@ def rtree(rnd, nrep, d, maxd):
         return {'k': 'grp', 'e': rtree(rnd, nrep, d + 1, maxd)}
     if r < 0.50:
         return gen_jump.call('if', *[rtree(rnd, nrep, d + 1, maxd) for _ in range(rnd.choice([1, 2, 3, 3]))])
+    if r < 0.53:
+        # a call of something that is not a function: ALL arguments are evaluated (left to right) before the call fails
+        return gen_jump.call(rnd.choice(['nosuchfn', 'v0', 'v1']), *[rtree(rnd, nrep, d + 1, maxd) for _ in range(rnd.choice([1, 2, 3]))])
     return {'k': 'bin', 'op': rnd.choice(BINOPS), 'l': rtree(rnd, nrep, d + 1, maxd), 'r': rtree(rnd, nrep, d + 1, maxd)}
 
 
